@@ -1290,23 +1290,28 @@ Proof.
   apply Ascii.eqb_eq in E. subst. exact Hx.
 Qed.
 
-(* a dotted quad has no ':' *)
+(* a dotted quad: four fields of digits; no ':' *)
+Lemma parse_v4_strict_fields s v : parse_v4_strict s = Some v ->
+  Forall (fun t => forallb is_digit t = true) (split_on "." s).
+Proof.
+  unfold parse_v4_strict. intros E.
+  destruct (split_on "." s) as [|a [|b [|c [|d [|x l]]]]]; cbn [map] in E; try discriminate;
+    try (destruct (strict_octet a); discriminate).
+  - destruct (strict_octet a) eqn:Ea; [destruct (strict_octet b); discriminate|discriminate].
+  - destruct (strict_octet a) eqn:Ea; [|discriminate].
+    destruct (strict_octet b) eqn:Eb; [destruct (strict_octet c); discriminate|discriminate].
+  - destruct (strict_octet a) eqn:Ea; [|discriminate]. destruct (strict_octet b) eqn:Eb; [|discriminate].
+    destruct (strict_octet c) eqn:Ec; [|discriminate]. destruct (strict_octet d) eqn:Ed; [|discriminate].
+    repeat constructor; eapply strict_octet_digits; eassumption.
+  - destruct (strict_octet a); [|discriminate]. destruct (strict_octet b); [|discriminate].
+    destruct (strict_octet c); [|discriminate]. destruct (strict_octet d); [|discriminate].
+    destruct (strict_octet x); discriminate.
+Qed.
+
 Lemma parse_v4_strict_colon s : mem_char ":" s = true -> parse_v4_strict s = None.
 Proof.
   intros Hm. destruct (parse_v4_strict s) as [v|] eqn:E; [exfalso|reflexivity].
-  unfold parse_v4_strict in E.
-  assert (HF : Forall (fun t => forallb is_digit t = true) (split_on "." s)).
-  { destruct (split_on "." s) as [|a [|b [|c [|d [|x l]]]]]; cbn [map] in E; try discriminate;
-      try (destruct (strict_octet a); discriminate).
-    - destruct (strict_octet a) eqn:Ea; [destruct (strict_octet b); discriminate|discriminate].
-    - destruct (strict_octet a) eqn:Ea; [|discriminate].
-      destruct (strict_octet b) eqn:Eb; [destruct (strict_octet c); discriminate|discriminate].
-    - destruct (strict_octet a) eqn:Ea; [|discriminate]. destruct (strict_octet b) eqn:Eb; [|discriminate].
-      destruct (strict_octet c) eqn:Ec; [|discriminate]. destruct (strict_octet d) eqn:Ed; [|discriminate].
-      repeat constructor; eapply strict_octet_digits; eassumption.
-    - destruct (strict_octet a); [|discriminate]. destruct (strict_octet b); [|discriminate].
-      destruct (strict_octet c); [|discriminate]. destruct (strict_octet d); [|discriminate].
-      destruct (strict_octet x); discriminate. }
+  pose proof (parse_v4_strict_fields s v E) as HF.
   destruct (split_on_chars is_digit "." s HF ":" (mem_char_In _ _ Hm)) as [H|H]; discriminate.
 Qed.
 
@@ -1625,14 +1630,6 @@ Proof.
   rewrite Hp. rewrite app_nil_r. reflexivity.
 Qed.
 
-(* an IPv6 literal given as the remote host (no port): Python's canonical text *)
-Lemma host_part_v6 t ws : forallb is_v6ch t = true -> parse_v6 t = Some ws ->
-  host_part t = Ok (None, Some (print_v6 false ws)).
-Proof.
-  intros Hc Hp. unfold host_part. rewrite (parse_v6_has_colon t ws Hp).
-  rewrite (py_ip_str_v6 t ws Hc Hp). reflexivity.
-Qed.
-
 Lemma split_on_head c x s : Ascii.eqb x c = false ->
   exists h r, split_on c (x :: s) = (x :: h) :: r.
 Proof.
@@ -1647,81 +1644,6 @@ Proof.
   destruct (split_empty (rev rmid)) as [[pre post]|].
   - destruct (existsb is_hempty post); [reflexivity|]. cbn [is_hempty vals_of]. reflexivity.
   - destruct (Nat.eqb _ _); reflexivity.
-Qed.
-
-(* the alphabet of  [v6]:port *)
-Definition is_bk (c : ascii) : bool := is_v6ch c || Ascii.eqb c "[" || Ascii.eqb c "]".
-
-Lemma v6ch_bk c : is_v6ch c = true -> is_bk c = true.
-Proof. intros H. unfold is_bk. rewrite H. reflexivity. Qed.
-
-Lemma host_part_bracket_port t ws p :
-  forallb is_v6ch t = true -> parse_v6 t = Some ws ->
-  digits_ok p = true -> short p = true -> dec_val p <= 65535 ->
-  host_part ("[" :: t ++ "]" :: ":" :: p) = Ok (Some (dec_val p), Some (print_v6 false ws)).
-Proof.
-  intros Hc Hp6 Hp Hs Hv. destruct (digits_ok_inv p Hp) as [Hnp Hap].
-  pose proof (parse_v6_has_colon t ws Hp6) as Hct.
-  assert (Hnt : nonempty t = true) by (destruct t; [discriminate|reflexivity]).
-  set (s := "[" :: t ++ "]" :: ":" :: p).
-  assert (Hall : forallb is_bk s = true).
-  { unfold s. cbn [forallb]. rewrite forallb_app. cbn [forallb].
-    rewrite (forallb_impl is_v6ch is_bk t v6ch_bk Hc).
-    rewrite (forallb_impl is_digit is_bk p (fun c H => v6ch_bk c (digit_v6ch c H)) Hap). reflexivity. }
-  assert (L : forall c, is_bk c = false -> lacks c s = true)
-    by (intros c Hc'; exact (class_lacks is_bk c s Hc' Hall)).
-  assert (Lt : forall c, is_v6ch c = false -> lacks c t = true)
-    by (intros c Hc'; exact (class_lacks is_v6ch c t Hc' Hc)).
-  assert (Hcolon : mem_char ":" s = true).
-  { unfold s. cbn [mem_char existsb]. change (Ascii.eqb ":" "[") with false. cbn [orb].
-    fold (mem_char ":" (t ++ "]" :: ":" :: p)). rewrite mem_char_app, Hct. reflexivity. }
-  assert (Hip : py_ip_str s = None).
-  { unfold py_ip_str. rewrite (parse_v4_strict_colon s Hcolon).
-    unfold py_ip6_str. rewrite (partition_on_lacks "%" s (L "%" eq_refl)).
-    rewrite (lacks_mem "/" s (L "/" eq_refl)). cbn [andb].
-    replace (parse_v6 s) with (@None (list N)); [reflexivity|]. symmetry.
-    unfold parse_v6, s.
-    destruct (split_on_head ":" "[" (t ++ "]" :: ":" :: p) eq_refl) as (h & r & ->).
-    destruct (Nat.ltb (length _) 3); [reflexivity|].
-    assert (Hhb : hextet ("[" :: h) = HBad) by reflexivity.
-    destruct (mem_char "." _).
-    - destruct (parse_v4_strict _); [|reflexivity].
-      destruct r as [|r1 r]; [reflexivity|].
-      change (removelast (("[" :: h) :: r1 :: r)) with (("[" :: h) :: removelast (r1 :: r)).
-      cbn [map app]. rewrite Hhb. apply assemble_v6_bad.
-    - cbn [map]. rewrite Hhb. apply assemble_v6_bad. }
-  assert (Hurl : url_hostinfo s = Ok (Some t, Some p)).
-  { unfold url_hostinfo.
-    rewrite (filter_all (fun c => negb (is_url_strip c)) s).
-    2:{ apply (forallb_impl is_bk); [|exact Hall]. intros x Hx. unfold is_url_strip.
-        rewrite (class_not_char is_bk "009" x eq_refl Hx), (class_not_char is_bk "010" x eq_refl Hx),
-                (class_not_char is_bk "013" x eq_refl Hx). reflexivity. }
-    rewrite (span_all (fun c => negb (is_netloc_end c)) s).
-    2:{ apply (forallb_impl is_bk); [|exact Hall]. intros x Hx. unfold is_netloc_end.
-        rewrite (class_not_char is_bk "/" x eq_refl Hx), (class_not_char is_bk "?" x eq_refl Hx),
-                (class_not_char is_bk "#" x eq_refl Hx). reflexivity. }
-    cbn [fst].
-    assert (Hl : mem_char "[" s = true) by reflexivity.
-    assert (Hr : mem_char "]" s = true).
-    { unfold s. cbn [mem_char existsb]. change (Ascii.eqb "]" "[") with false. cbn [orb].
-      fold (mem_char "]" (t ++ "]" :: ":" :: p)). rewrite mem_char_app.
-      cbn [mem_char existsb]. rewrite Ascii.eqb_refl. cbn [orb]. apply orb_true_r. }
-    rewrite Hl, Hr. cbn [xorb andb].
-    assert (P1 : partition_on "[" s = ([], true, t ++ "]" :: ":" :: p)) by reflexivity.
-    assert (P3 : partition_on ":" (":" :: p) = ([], true, p)) by reflexivity.
-    rewrite P1. rewrite (partition_on_app "]" t (":" :: p) (Lt "]" eq_refl)). rewrite P3.
-    assert (Hbr : bracketed_host_ok t = true).
-    { unfold bracketed_host_ok.
-      rewrite <- (app_nil_r t) at 1. rewrite (strip_char_class is_v6ch "v" t [] eq_refl Hnt Hc).
-      rewrite (parse_v4_strict_colon t Hct).
-      pose proof (py_ip_str_v6 t ws Hc Hp6) as Hpy. unfold py_ip_str in Hpy.
-      rewrite (parse_v4_strict_colon t Hct) in Hpy. rewrite Hpy. reflexivity. }
-    rewrite Hbr. cbn [negb]. rewrite Hnt, Hnp.
-    rewrite (partition_on_lacks "%" t (Lt "%" eq_refl)). rewrite app_nil_r.
-    rewrite (map_lower_v6ch t Hc). reflexivity. }
-  unfold host_part. rewrite Hcolon, Hip, Hurl. rewrite (py_ip_str_v6 t ws Hc Hp6).
-  unfold url_port. rewrite Hap. rewrite (py_int_short p Hs).
-  destruct (dec_val p <=? 65535) eqn:E; [reflexivity|lia].
 Qed.
 
 (* ------------------------------------------------------------------ *)
@@ -1874,6 +1796,516 @@ Proof.
   split; [exact (getaddrinfo_v6 rs s ws Hp Hi)|]. split; [exact Hl|]. split; [exact Hw|].
   split; [exact Hrt|]. split; [exact (py_ip_str_v6 _ ws (print_v6_v6ch true ws Hw) Hrt)|].
   exact (getaddrinfo_v6 rs _ ws Hrt (idna_print_v6 ws Hl Hw)).
+Qed.
+
+(* ------------------------------------------------------------------ *)
+(* every text the IPv6 reader accepts passes the idna codec: at most   *)
+(* ten fields of at most four hex digits, or a strict dotted quad last *)
+
+Definition hx_ok (x : hx) : Prop := match x with HBad => False | _ => True end.
+
+Lemma vals_of_ok l r : vals_of l = Some r -> Forall hx_ok l /\ length r = length l.
+Proof.
+  revert r. induction l as [|x l IH]; intros r H.
+  - cbn [vals_of] in H. injection H as <-. split; [constructor|reflexivity].
+  - cbn [vals_of] in H. destruct x as [|n|]; try discriminate.
+    destruct (vals_of l) as [r'|] eqn:E; [|discriminate]. injection H as <-.
+    destruct (IH r' eq_refl) as [A B]. split; [constructor; [exact I|exact A]|cbn [length]; rewrite B; reflexivity].
+Qed.
+
+Lemma is_hempty_ok x : is_hempty x = true -> hx_ok x.
+Proof. destruct x; [intros _; exact I|discriminate|discriminate]. Qed.
+
+Lemma nonempty_hx_false l : nonempty_hx l = false -> l = [].
+Proof. destruct l; [reflexivity|discriminate]. Qed.
+
+Lemma assemble_v6_items items r : assemble_v6 items = Some r ->
+  Forall hx_ok items /\ (length items <= 10)%nat.
+Proof.
+  unfold assemble_v6. destruct items as [|a rest]; [discriminate|].
+  destruct (rev rest) as [|z rmid] eqn:Er; [discriminate|].
+  assert (Erest : rest = rev rmid ++ [z]).
+  { rewrite <- (rev_involutive rest), Er. reflexivity. }
+  intros H.
+  destruct (split_empty (rev rmid)) as [[pre post]|] eqn:Es.
+  - apply split_empty_spec in Es.
+    destruct (existsb is_hempty post); [discriminate|].
+    set (hi := if is_hempty a then (if nonempty_hx pre then None else Some []) else vals_of (a :: pre)) in H.
+    set (lo := if is_hempty z then (if nonempty_hx post then None else Some []) else vals_of (post ++ [z])) in H.
+    assert (Hhi : forall h, hi = Some h -> Forall hx_ok (a :: pre) /\ (length pre <= length h)%nat).
+    { intros h Eh. unfold hi in Eh. destruct (is_hempty a) eqn:Ea.
+      - destruct (nonempty_hx pre) eqn:Ep; [discriminate|]. apply nonempty_hx_false in Ep. subst pre.
+        split; [constructor; [exact (is_hempty_ok a Ea)|constructor]|cbn; lia].
+      - destruct (vals_of_ok _ _ Eh) as [A B]. split; [exact A|]. rewrite B. cbn [length]. lia. }
+    assert (Hlo : forall l, lo = Some l -> Forall hx_ok (post ++ [z]) /\ (length post <= length l)%nat).
+    { intros l El. unfold lo in El. destruct (is_hempty z) eqn:Ez.
+      - destruct (nonempty_hx post) eqn:Ep; [discriminate|]. apply nonempty_hx_false in Ep. subst post.
+        split; [constructor; [exact (is_hempty_ok z Ez)|constructor]|cbn; lia].
+      - destruct (vals_of_ok _ _ El) as [A B]. split; [exact A|]. rewrite B, app_length. cbn [length]. lia. }
+    destruct hi as [h|]; [|discriminate]. destruct lo as [l|]; [|discriminate].
+    destruct (Nat.ltb (length h + length l) 8) eqn:El; [|discriminate]. apply Nat.ltb_lt in El.
+    destruct (Hhi h eq_refl) as [A1 B1]. destruct (Hlo l eq_refl) as [A2 B2].
+    rewrite Erest, Es. split.
+    + apply Forall_app in A2. destruct A2 as [A2 A3].
+      constructor; [exact (Forall_inv A1)|]. apply Forall_app. split; [|exact A3].
+      apply Forall_app. split; [exact (Forall_inv_tail A1)|]. constructor; [exact I|exact A2].
+    + cbn [length]. rewrite !app_length. cbn [length]. lia.
+  - destruct (Nat.eqb (length (a :: rest)) 8) eqn:E8; [|discriminate].
+    apply Nat.eqb_eq in E8. destruct (vals_of_ok _ _ H) as [A _]. split; [exact A|lia].
+Qed.
+
+Lemma hextet_ok_chars p : hx_ok (hextet p) -> forallb is_hex p = true /\ lenN p <= 4.
+Proof.
+  unfold hextet. destruct p as [|c t]; [intros _; split; [reflexivity|rewrite lenN_nil; lia]|].
+  destruct (forallb is_hex (c :: t) && (lenN (c :: t) <=? 4)) eqn:E; [|intros []].
+  apply andb_true_iff in E. destruct E as [A B]. intros _. split; [exact A|lia].
+Qed.
+
+Lemma split_on_nonnil c s : split_on c s <> [].
+Proof.
+  destruct s as [|x s]; [discriminate|]. cbn [split_on].
+  destruct (Ascii.eqb x c); [discriminate|]. destruct (split_on c s); discriminate.
+Qed.
+
+Lemma join_split c s : join [c] (split_on c s) = s.
+Proof.
+  induction s as [|x s IH]; [reflexivity|]. cbn [split_on].
+  pose proof (split_on_nonnil c s) as Hn.
+  destruct (Ascii.eqb x c) eqn:E.
+  - apply Ascii.eqb_eq in E. subst x.
+    destruct (split_on c s) as [|h r]; [congruence|].
+    change (join [c] ([] :: h :: r)) with ([] ++ [c] ++ join [c] (h :: r)). rewrite IH. reflexivity.
+  - destruct (split_on c s) as [|h r]; [congruence|].
+    rewrite <- IH. destruct r; reflexivity.
+Qed.
+
+Lemma join_len_bound (ts : list bytes) : Forall (fun t => lenN t <= 4) ts ->
+  lenN (join COLON ts) <= 5 * N.of_nat (length ts).
+Proof.
+  induction 1 as [|x l Hx _ IH]; [cbn; lia|].
+  destruct l as [|y l].
+  - cbn [join length]. lia.
+  - change (join COLON (x :: y :: l)) with (x ++ COLON ++ join COLON (y :: l)).
+    rewrite !lenN_app. unfold COLON at 1. rewrite lenN_cons, lenN_nil.
+    change (length (x :: y :: l)) with (S (length (y :: l))). lia.
+Qed.
+
+Lemma hextets_ok_text (ts : list bytes) : Forall hx_ok (map hextet ts) ->
+  lacks "." (join COLON ts) = true /\ lenN (join COLON ts) <= 5 * N.of_nat (length ts).
+Proof.
+  intros H. rewrite Forall_map in H. split.
+  - unfold lacks, COLON. apply forallb_join; [reflexivity|].
+    eapply Forall_impl; [|exact H]. intros t Ht. cbv beta in Ht.
+    exact (class_lacks is_hex "." t eq_refl (proj1 (hextet_ok_chars t Ht))).
+  - apply join_len_bound. eapply Forall_impl; [|exact H]. intros t Ht. cbv beta in Ht.
+    exact (proj2 (hextet_ok_chars t Ht)).
+Qed.
+
+Lemma strict_octet_inv p v : strict_octet p = Some v ->
+  nonempty p = true /\ lacks "." p = true /\ lenN p <= 3.
+Proof.
+  unfold strict_octet. destruct (nonempty p); [|discriminate].
+  destruct (forallb is_digit p) eqn:Ed; [|discriminate]. cbn [andb].
+  destruct (lenN p <=? 3) eqn:El; [|discriminate]. intros _.
+  split; [reflexivity|]. split; [exact (class_lacks is_digit "." p eq_refl Ed)|lia].
+Qed.
+
+Lemma parse_v6_idna s ws : parse_v6 s = Some ws -> idna_labels_ok (split_on "." s) = true.
+Proof.
+  unfold parse_v6. intros H.
+  pose proof (join_split ":" s) as Es. fold COLON in Es.
+  set (parts := split_on ":" s) in *.
+  destruct (Nat.ltb (length parts) 3) eqn:E3; [discriminate|]. apply Nat.ltb_ge in E3.
+  destruct (mem_char "." (last parts [])) eqn:Ed.
+  - destruct (parse_v4_strict (last parts [])) as [v|] eqn:E4; [|discriminate].
+    destruct (assemble_v6_items _ _ H) as [Hok Hlen].
+    apply Forall_app in Hok. destruct Hok as [Hok _].
+    rewrite app_length, map_length in Hlen. cbn [length] in Hlen.
+    assert (Hparts : parts = removelast parts ++ [last parts []]).
+    { apply app_removelast_last. intros E. rewrite E in E3. cbn in E3. lia. }
+    set (R := removelast parts) in *. set (lp := last parts []) in *.
+    assert (HR : R <> []).
+    { intros E. rewrite Hparts, E in E3. cbn in E3. lia. }
+    destruct (hextets_ok_text R Hok) as [RD RL].
+    (* the dotted quad *)
+    pose proof (join_split "." lp) as Elp.
+    unfold parse_v4_strict in E4.
+    destruct (split_on "." lp) as [|o1 [|o2 [|o3 [|o4 [|x l]]]]]; cbn [map] in E4; try discriminate;
+      try (destruct (strict_octet o1); discriminate).
+    + destruct (strict_octet o1); [destruct (strict_octet o2); discriminate|discriminate].
+    + destruct (strict_octet o1); [|discriminate].
+      destruct (strict_octet o2); [destruct (strict_octet o3); discriminate|discriminate].
+    + destruct (strict_octet o1) eqn:S1; [|discriminate]. destruct (strict_octet o2) eqn:S2; [|discriminate].
+      destruct (strict_octet o3) eqn:S3; [|discriminate]. destruct (strict_octet o4) eqn:S4; [|discriminate].
+      destruct (strict_octet_inv _ _ S1) as (N1 & D1 & L1). destruct (strict_octet_inv _ _ S2) as (N2 & D2 & L2).
+      destruct (strict_octet_inv _ _ S3) as (N3 & D3 & L3). destruct (strict_octet_inv _ _ S4) as (N4 & D4 & L4).
+      assert (Es' : s = (join COLON R ++ ":" :: o1) ++ "." :: o2 ++ "." :: o3 ++ "." :: o4).
+      { rewrite <- Es, Hparts. rewrite join_app by (exact HR || discriminate).
+        cbn [join]. rewrite <- Elp. cbn [join app]. rewrite <- !app_assoc. reflexivity. }
+      rewrite Es'.
+      rewrite (split_on_app_sep "." (join COLON R ++ ":" :: o1))
+        by (rewrite lacks_app, lacks_cons, RD, D1; reflexivity).
+      rewrite (split_on_app_sep "." _ _ D2), (split_on_app_sep "." _ _ D3), (split_on_lacks "." _ D4).
+      cbn [idna_labels_ok]. rewrite lenN_app, lenN_cons.
+      assert (P : forall t, nonempty t = true -> 0 < lenN t).
+      { intros t Ht. destruct t; [discriminate|]. rewrite lenN_cons. lia. }
+      pose proof (P _ N2). pose proof (P _ N3). lia.
+    + destruct (strict_octet o1); [|discriminate]. destruct (strict_octet o2); [|discriminate].
+      destruct (strict_octet o3); [|discriminate]. destruct (strict_octet o4); [|discriminate].
+      destruct (strict_octet x); discriminate.
+  - destruct (assemble_v6_items _ _ H) as [Hok Hlen]. rewrite map_length in Hlen.
+    destruct (hextets_ok_text parts Hok) as [RD RL].
+    rewrite <- Es. rewrite (split_on_lacks "." _ RD). cbn [idna_labels_ok]. lia.
+Qed.
+
+(* the premise-free forms *)
+Lemma getaddrinfo_v6_literal rs s ws :
+  parse_v6 s = Some ws -> getaddrinfo rs s = Ok [(AF_INET6, print_v6 true ws)].
+Proof. intros Hp. exact (getaddrinfo_v6 rs s ws Hp (parse_v6_idna s ws Hp)). Qed.
+
+Lemma v6_canonical_literal s ws rs :
+  parse_v6 s = Some ws ->
+  getaddrinfo rs s = Ok [(AF_INET6, print_v6 true ws)] /\
+  length ws = 8%nat /\ Forall (fun w => w < 65536) ws /\
+  parse_v6 (print_v6 true ws) = Some ws /\
+  py_ip_str (print_v6 true ws) = Some (print_v6 false ws) /\
+  getaddrinfo rs (print_v6 true ws) = Ok [(AF_INET6, print_v6 true ws)].
+Proof. intros Hp. exact (v6_canonical s ws rs Hp (parse_v6_idna s ws Hp)). Qed.
+
+(* ------------------------------------------------------------------ *)
+(* every text the IPv6 reader accepts is in the IPv6 form of the       *)
+(* subnet expression: [\w:.]+ with at least two ':'                    *)
+
+Lemma length_split_on c s : length (split_on c s) = S (count_char c s).
+Proof.
+  induction s as [|x s IH]; [reflexivity|]. cbn [split_on count_char].
+  destruct (Ascii.eqb x c).
+  - cbn [length]. rewrite IH. reflexivity.
+  - destruct (split_on c s) as [|h r]; [discriminate IH|exact IH].
+Qed.
+
+Lemma hex_host6 c : is_hex c = true -> is_host6 c = true.
+Proof.
+  intros H. unfold is_host6, is_word, is_alpha. unfold is_hex in H.
+  destruct (is_digit c); [rewrite orb_true_r; reflexivity|]. cbn [orb] in H.
+  replace (is_upper c || is_lower c) with true; [reflexivity|].
+  symmetry. unfold is_upper, is_lower, in_range in *. lia.
+Qed.
+
+Lemma digit_host6 c : is_digit c = true -> is_host6 c = true.
+Proof. intros H. apply hex_host6. unfold is_hex. rewrite H. reflexivity. Qed.
+
+Lemma forallb_of_chars (P : ascii -> bool) s : (forall x, In x s -> P x = true) -> forallb P s = true.
+Proof. intros H. apply forallb_forall. exact H. Qed.
+
+(* ------------------------------------------------------------------ *)
+(* the alphabet of every text the IPv6 reader accepts                  *)
+
+Definition is_v6any (c : ascii) : bool := is_hex c || Ascii.eqb c ":" || Ascii.eqb c ".".
+
+Lemma hex_v6any c : is_hex c = true -> is_v6any c = true.
+Proof. intros H. unfold is_v6any. rewrite H. reflexivity. Qed.
+
+Lemma digit_v6any c : is_digit c = true -> is_v6any c = true.
+Proof. intros H. apply hex_v6any. unfold is_hex. rewrite H. reflexivity. Qed.
+
+Lemma v6any_host6 c : is_v6any c = true -> is_host6 c = true.
+Proof.
+  unfold is_v6any. intros H. destruct (is_hex c) eqn:E; [exact (hex_host6 c E)|].
+  unfold is_host6. cbn [orb] in H. apply orb_true_iff in H. destruct H as [H|H]; rewrite H.
+  - rewrite orb_true_r. reflexivity.
+  - apply orb_true_r.
+Qed.
+
+Lemma parse_v6_alphabet s ws : parse_v6 s = Some ws -> forallb is_v6any s = true.
+Proof.
+  intros H. unfold parse_v6 in H.
+  set (parts := split_on ":" s) in *.
+  destruct (Nat.ltb (length parts) 3) eqn:E3; [discriminate|]. apply Nat.ltb_ge in E3.
+  assert (Hparts : Forall (fun t => forallb is_v6any t = true) parts).
+  { destruct (mem_char "." (last parts [])) eqn:Ed.
+    - destruct (parse_v4_strict (last parts [])) as [v|] eqn:E4; [|discriminate].
+      destruct (assemble_v6_items _ _ H) as [Hok _].
+      apply Forall_app in Hok. destruct Hok as [Hok _]. rewrite Forall_map in Hok.
+      assert (Hp : parts = removelast parts ++ [last parts []]).
+      { apply app_removelast_last. intros E. rewrite E in E3. cbn in E3. lia. }
+      rewrite Hp. apply Forall_app. split.
+      + eapply Forall_impl; [|exact Hok]. intros t Ht. cbv beta in Ht.
+        exact (forallb_impl is_hex is_v6any t hex_v6any (proj1 (hextet_ok_chars t Ht))).
+      + constructor; [|constructor]. apply forallb_of_chars. intros x Hx.
+        pose proof (parse_v4_strict_fields _ _ E4) as HF.
+        assert (HF' : Forall (fun t => forallb is_v6any t = true) (split_on "." (last parts []))).
+        { eapply Forall_impl; [|exact HF]. intros t Ht. exact (forallb_impl is_digit is_v6any t digit_v6any Ht). }
+        destruct (split_on_chars is_v6any "." _ HF' x Hx) as [->|Hx']; [reflexivity|exact Hx'].
+    - destruct (assemble_v6_items _ _ H) as [Hok _]. rewrite Forall_map in Hok.
+      eapply Forall_impl; [|exact Hok]. intros t Ht. cbv beta in Ht.
+      exact (forallb_impl is_hex is_v6any t hex_v6any (proj1 (hextet_ok_chars t Ht))). }
+  apply forallb_of_chars. intros x Hx.
+  destruct (split_on_chars is_v6any ":" s Hparts x Hx) as [->|Hx']; [reflexivity|exact Hx'].
+Qed.
+
+Lemma parse_v6_host6 s ws : parse_v6 s = Some ws -> host6_ok s = true.
+Proof.
+  intros H. pose proof (parse_v6_alphabet s ws H) as Ha.
+  pose proof (length_split_on ":" s) as Hlen.
+  unfold parse_v6 in H. destruct (Nat.ltb (length (split_on ":" s)) 3) eqn:E3; [discriminate|].
+  apply Nat.ltb_ge in E3. unfold host6_ok.
+  rewrite (forallb_impl is_v6any is_host6 s v6any_host6 Ha).
+  replace (Nat.ltb 1 (count_char ":" s)) with true by (symmetry; apply Nat.ltb_lt; lia).
+  destruct s as [|c s]; [cbn in E3; lia|reflexivity].
+Qed.
+
+Lemma subnet_roundtrip_numeric6 rs sp ws :
+  spec_ok sp = true -> spec_short sp = true -> parse_v6 (sp_host sp) = Some ws ->
+  (match sp_width sp with None => True | Some d => dec_val d <= 128 end) ->
+  parse_subnetport rs (render6 sp) =
+  Ok [(AF_INET6, print_v6 true ws, spec_width_val AF_INET6 sp, spec_fport_val sp, spec_lport_val sp)].
+Proof.
+  intros Hok Hs Hp Hw.
+  exact (subnet_roundtrip6 rs sp AF_INET6 (print_v6 true ws) (parse_v6_host6 _ ws Hp) Hok Hs
+           (getaddrinfo_v6_literal rs _ ws Hp) Hw).
+Qed.
+
+(* ------------------------------------------------------------------ *)
+(* the reader ignores the case of hex digits                           *)
+
+Lemma to_lower_upper c : is_upper c = true -> cN (to_lower c) = cN c + 32.
+Proof.
+  intros H. unfold to_lower. rewrite H. apply cN_ascii.
+  unfold is_upper, in_range in H. lia.
+Qed.
+
+Lemma to_lower_other c : is_upper c = false -> to_lower c = c.
+Proof. intros H. unfold to_lower. rewrite H. reflexivity. Qed.
+
+Lemma cN_inj a b : cN a = cN b -> a = b.
+Proof.
+  unfold cN. intros H. rewrite <- (ascii_N_embedding a), <- (ascii_N_embedding b), H. reflexivity.
+Qed.
+
+(* comparing with a character that is not a letter *)
+Lemma to_lower_eqb c k : is_upper k = false -> is_lower k = false ->
+  Ascii.eqb (to_lower c) k = Ascii.eqb c k.
+Proof.
+  intros Hu Hl. destruct (is_upper c) eqn:E; [|rewrite (to_lower_other c E); reflexivity].
+  pose proof (to_lower_upper c E) as Hc.
+  destruct (Ascii.eqb (to_lower c) k) eqn:E1.
+  - apply Ascii.eqb_eq in E1. subst k. unfold is_lower, is_upper, in_range in *. lia.
+  - destruct (Ascii.eqb c k) eqn:E2; [|reflexivity].
+    apply Ascii.eqb_eq in E2. subst k. congruence.
+Qed.
+
+Lemma to_lower_digit c : is_digit (to_lower c) = is_digit c.
+Proof.
+  destruct (is_upper c) eqn:E; [|rewrite (to_lower_other c E); reflexivity].
+  pose proof (to_lower_upper c E) as Hc. unfold is_digit, is_upper, in_range in *. lia.
+Qed.
+
+Lemma to_lower_hex c : is_hex (to_lower c) = is_hex c.
+Proof.
+  destruct (is_upper c) eqn:E; [|rewrite (to_lower_other c E); reflexivity].
+  pose proof (to_lower_upper c E) as Hc. unfold is_hex, is_digit, is_upper, in_range in *. lia.
+Qed.
+
+Lemma to_lower_hex_val c : is_hex c = true -> hex_digit_val (to_lower c) = hex_digit_val c.
+Proof.
+  intros Hh. destruct (is_upper c) eqn:E; [|rewrite (to_lower_other c E); reflexivity].
+  pose proof (to_lower_upper c E) as Hc.
+  unfold hex_digit_val, is_hex, is_digit, is_upper, in_range in *.
+  destruct ((48 <=? cN c) && (cN c <=? 57)) eqn:D1; [lia|].
+  destruct ((48 <=? cN (to_lower c)) && (cN (to_lower c) <=? 57)) eqn:D2; [lia|].
+  destruct ((65 <=? cN c) && (cN c <=? 70)) eqn:D3; [|lia].
+  destruct ((65 <=? cN (to_lower c)) && (cN (to_lower c) <=? 70)) eqn:D4; lia.
+Qed.
+
+Lemma forallb_map_ext {A} (P : A -> bool) (f : A -> A) l :
+  (forall x, P (f x) = P x) -> forallb P (map f l) = forallb P l.
+Proof.
+  intros H. induction l as [|x l IH]; [reflexivity|]. cbn [map forallb]. rewrite H, IH. reflexivity.
+Qed.
+
+Lemma lenN_map (f : ascii -> ascii) l : lenN (map f l) = lenN l.
+Proof. unfold lenN. rewrite map_length. reflexivity. Qed.
+
+Lemma horner_lower acc p : forallb is_hex p = true ->
+  horner 16 hex_digit_val acc (map to_lower p) = horner 16 hex_digit_val acc p.
+Proof.
+  revert acc. induction p as [|c p IH]; intros acc H; [reflexivity|].
+  cbn [forallb] in H. apply andb_true_iff in H. destruct H as [Hc Hp].
+  cbn [map horner]. rewrite (to_lower_hex_val c Hc). exact (IH _ Hp).
+Qed.
+
+Lemma hextet_lower p : hextet (map to_lower p) = hextet p.
+Proof.
+  unfold hextet. destruct p as [|c p]; [reflexivity|].
+  change (map to_lower (c :: p)) with (to_lower c :: map to_lower p).
+  change (to_lower c :: map to_lower p) with (map to_lower (c :: p)).
+  rewrite (forallb_map_ext is_hex to_lower (c :: p) to_lower_hex), lenN_map.
+  destruct (forallb is_hex (c :: p)) eqn:E; [|reflexivity].
+  cbn [andb]. unfold hex_val. rewrite (horner_lower 0 (c :: p) E). reflexivity.
+Qed.
+
+Lemma split_on_lower k s : is_upper k = false -> is_lower k = false ->
+  split_on k (map to_lower s) = map (map to_lower) (split_on k s).
+Proof.
+  intros Hu Hl. induction s as [|x s IH]; [reflexivity|].
+  cbn [map split_on]. rewrite (to_lower_eqb x k Hu Hl).
+  destruct (Ascii.eqb x k).
+  - rewrite IH. reflexivity.
+  - rewrite IH. destruct (split_on k s); reflexivity.
+Qed.
+
+Lemma mem_char_lower k s : is_upper k = false -> is_lower k = false ->
+  mem_char k (map to_lower s) = mem_char k s.
+Proof.
+  intros Hu Hl. induction s as [|x s IH]; [reflexivity|].
+  cbn [map mem_char existsb]. fold (mem_char k (map to_lower s)). fold (mem_char k s).
+  rewrite IH. rewrite (Ascii.eqb_sym k (to_lower x)), (Ascii.eqb_sym k x), (to_lower_eqb x k Hu Hl). reflexivity.
+Qed.
+
+Lemma digits_lower q : forallb is_digit q = true -> map to_lower q = q.
+Proof.
+  induction q as [|c q IH]; intros H; [reflexivity|].
+  cbn [forallb] in H. apply andb_true_iff in H. destruct H as [Hc Hq].
+  cbn [map]. rewrite (IH Hq). rewrite to_lower_other; [reflexivity|].
+  unfold is_digit, is_upper, in_range in *. lia.
+Qed.
+
+Lemma strict_octet_lower q : strict_octet (map to_lower q) = strict_octet q.
+Proof.
+  destruct (forallb is_digit q) eqn:E; [rewrite (digits_lower q E); reflexivity|].
+  unfold strict_octet. rewrite (forallb_map_ext is_digit to_lower q to_lower_digit), E.
+  rewrite !andb_false_r. reflexivity.
+Qed.
+
+Lemma parse_v4_strict_lower s : parse_v4_strict (map to_lower s) = parse_v4_strict s.
+Proof.
+  unfold parse_v4_strict. rewrite (split_on_lower "." s eq_refl eq_refl). rewrite map_map.
+  rewrite (map_ext _ _ strict_octet_lower). reflexivity.
+Qed.
+
+Lemma last_map_lower (l : list bytes) : last (map (map to_lower) l) [] = map to_lower (last l []).
+Proof.
+  induction l as [|a l IH]; [reflexivity|]. destruct l as [|b l]; [reflexivity|].
+  change (last (map (map to_lower) (a :: b :: l)) []) with (last (map (map to_lower) (b :: l)) []).
+  change (last (a :: b :: l) []) with (last (b :: l) []). exact IH.
+Qed.
+
+Lemma parse_v6_lower s : parse_v6 (map to_lower s) = parse_v6 s.
+Proof.
+  unfold parse_v6. rewrite (split_on_lower ":" s eq_refl eq_refl). rewrite map_length.
+  rewrite last_map_lower, (mem_char_lower "." _ eq_refl eq_refl), parse_v4_strict_lower.
+  rewrite removelast_map, !map_map. rewrite !(map_ext _ _ hextet_lower). reflexivity.
+Qed.
+
+Lemma v6any_lower_v6ch c : is_v6any c = true -> is_v6ch (to_lower c) = true.
+Proof.
+  unfold is_v6any, is_v6ch. intros H.
+  rewrite (to_lower_eqb c ":" eq_refl eq_refl), (to_lower_eqb c "." eq_refl eq_refl).
+  destruct (Ascii.eqb c ":"); [rewrite orb_true_r; reflexivity|].
+  destruct (Ascii.eqb c "."); [apply orb_true_r|]. rewrite !orb_false_r in *.
+  destruct (is_upper c) eqn:E.
+  - pose proof (to_lower_upper c E) as Hc. unfold is_hex, is_digit, is_upper, in_range in *. lia.
+  - rewrite (to_lower_other c E). unfold is_hex, is_digit, is_upper, in_range in *. lia.
+Qed.
+
+Lemma lower_v6ch t : forallb is_v6any t = true -> forallb is_v6ch (map to_lower t) = true.
+Proof.
+  induction t as [|c t IH]; intros H; [reflexivity|].
+  cbn [forallb] in H. apply andb_true_iff in H. destruct H as [Hc Ht].
+  cbn [map forallb]. rewrite (v6any_lower_v6ch c Hc), (IH Ht). reflexivity.
+Qed.
+
+(* ------------------------------------------------------------------ *)
+(* ipaddress / parse_hostport on ANY text the IPv6 reader accepts      *)
+
+Lemma py_ip_str_v6_any t ws : parse_v6 t = Some ws -> py_ip_str t = Some (print_v6 false ws).
+Proof.
+  intros Hp. pose proof (parse_v6_alphabet t ws Hp) as Hc. unfold py_ip_str.
+  rewrite (parse_v4_strict_colon t (parse_v6_has_colon t ws Hp)).
+  unfold py_ip6_str. rewrite (partition_on_lacks "%" t (class_lacks is_v6any "%" t eq_refl Hc)).
+  rewrite (lacks_mem "/" t (class_lacks is_v6any "/" t eq_refl Hc)). cbn [andb].
+  rewrite Hp. rewrite app_nil_r. reflexivity.
+Qed.
+
+Lemma host_part_v6_any t ws : parse_v6 t = Some ws -> host_part t = Ok (None, Some (print_v6 false ws)).
+Proof.
+  intros Hp. unfold host_part. rewrite (parse_v6_has_colon t ws Hp).
+  rewrite (py_ip_str_v6_any t ws Hp). reflexivity.
+Qed.
+
+Definition is_bka (c : ascii) : bool := is_v6any c || Ascii.eqb c "[" || Ascii.eqb c "]".
+
+Lemma v6any_bka c : is_v6any c = true -> is_bka c = true.
+Proof. intros H. unfold is_bka. rewrite H. reflexivity. Qed.
+
+Lemma host_part_bracket_port_any t ws p :
+  parse_v6 t = Some ws -> digits_ok p = true -> short p = true -> dec_val p <= 65535 ->
+  host_part ("[" :: t ++ "]" :: ":" :: p) = Ok (Some (dec_val p), Some (print_v6 false ws)).
+Proof.
+  intros Hp6 Hp Hs Hv. destruct (digits_ok_inv p Hp) as [Hnp Hap].
+  pose proof (parse_v6_alphabet t ws Hp6) as Hc.
+  pose proof (parse_v6_has_colon t ws Hp6) as Hct.
+  assert (Hnt : nonempty t = true) by (destruct t; [discriminate|reflexivity]).
+  set (s := "[" :: t ++ "]" :: ":" :: p).
+  assert (Hall : forallb is_bka s = true).
+  { unfold s. cbn [forallb]. rewrite forallb_app. cbn [forallb].
+    rewrite (forallb_impl is_v6any is_bka t v6any_bka Hc).
+    rewrite (forallb_impl is_digit is_bka p (fun c H => v6any_bka c (digit_v6any c H)) Hap). reflexivity. }
+  assert (L : forall c, is_bka c = false -> lacks c s = true)
+    by (intros c Hc'; exact (class_lacks is_bka c s Hc' Hall)).
+  assert (Lt : forall c, is_v6any c = false -> lacks c t = true)
+    by (intros c Hc'; exact (class_lacks is_v6any c t Hc' Hc)).
+  assert (Hcolon : mem_char ":" s = true).
+  { unfold s. cbn [mem_char existsb]. change (Ascii.eqb ":" "[") with false. cbn [orb].
+    fold (mem_char ":" (t ++ "]" :: ":" :: p)). rewrite mem_char_app, Hct. reflexivity. }
+  assert (Hip : py_ip_str s = None).
+  { unfold py_ip_str. rewrite (parse_v4_strict_colon s Hcolon).
+    unfold py_ip6_str. rewrite (partition_on_lacks "%" s (L "%" eq_refl)).
+    rewrite (lacks_mem "/" s (L "/" eq_refl)). cbn [andb].
+    replace (parse_v6 s) with (@None (list N)); [reflexivity|]. symmetry.
+    unfold parse_v6, s.
+    destruct (split_on_head ":" "[" (t ++ "]" :: ":" :: p) eq_refl) as (h & r & ->).
+    destruct (Nat.ltb (length _) 3); [reflexivity|].
+    assert (Hhb : hextet ("[" :: h) = HBad) by reflexivity.
+    destruct (mem_char "." _).
+    - destruct (parse_v4_strict _); [|reflexivity].
+      destruct r as [|r1 r]; [reflexivity|].
+      change (removelast (("[" :: h) :: r1 :: r)) with (("[" :: h) :: removelast (r1 :: r)).
+      cbn [map app]. rewrite Hhb. apply assemble_v6_bad.
+    - cbn [map]. rewrite Hhb. apply assemble_v6_bad. }
+  assert (Hurl : url_hostinfo s = Ok (Some (map to_lower t), Some p)).
+  { unfold url_hostinfo.
+    rewrite (filter_all (fun c => negb (is_url_strip c)) s).
+    2:{ apply (forallb_impl is_bka); [|exact Hall]. intros x Hx. unfold is_url_strip.
+        rewrite (class_not_char is_bka "009" x eq_refl Hx), (class_not_char is_bka "010" x eq_refl Hx),
+                (class_not_char is_bka "013" x eq_refl Hx). reflexivity. }
+    rewrite (span_all (fun c => negb (is_netloc_end c)) s).
+    2:{ apply (forallb_impl is_bka); [|exact Hall]. intros x Hx. unfold is_netloc_end.
+        rewrite (class_not_char is_bka "/" x eq_refl Hx), (class_not_char is_bka "?" x eq_refl Hx),
+                (class_not_char is_bka "#" x eq_refl Hx). reflexivity. }
+    cbn [fst].
+    assert (Hl : mem_char "[" s = true) by reflexivity.
+    assert (Hr : mem_char "]" s = true).
+    { unfold s. cbn [mem_char existsb]. change (Ascii.eqb "]" "[") with false. cbn [orb].
+      fold (mem_char "]" (t ++ "]" :: ":" :: p)). rewrite mem_char_app.
+      cbn [mem_char existsb]. rewrite Ascii.eqb_refl. cbn [orb]. apply orb_true_r. }
+    rewrite Hl, Hr. cbn [xorb andb].
+    assert (P1 : partition_on "[" s = ([], true, t ++ "]" :: ":" :: p)) by reflexivity.
+    assert (P3 : partition_on ":" (":" :: p) = ([], true, p)) by reflexivity.
+    rewrite P1. rewrite (partition_on_app "]" t (":" :: p) (Lt "]" eq_refl)). rewrite P3.
+    assert (Hbr : bracketed_host_ok t = true).
+    { unfold bracketed_host_ok.
+      rewrite <- (app_nil_r t) at 1. rewrite (strip_char_class is_v6any "v" t [] eq_refl Hnt Hc).
+      rewrite (parse_v4_strict_colon t Hct).
+      pose proof (py_ip_str_v6_any t ws Hp6) as Hpy. unfold py_ip_str in Hpy.
+      rewrite (parse_v4_strict_colon t Hct) in Hpy. rewrite Hpy. reflexivity. }
+    rewrite Hbr. cbn [negb]. rewrite Hnt, Hnp.
+    rewrite (partition_on_lacks "%" t (Lt "%" eq_refl)). rewrite app_nil_r. reflexivity. }
+  unfold host_part. rewrite Hcolon, Hip, Hurl.
+  rewrite (py_ip_str_v6 (map to_lower t) ws (lower_v6ch t Hc)) by (rewrite parse_v6_lower; exact Hp6).
+  unfold url_port. rewrite Hap. rewrite (py_int_short p Hs).
+  destruct (dec_val p <=? 65535) eqn:E; [reflexivity|lia].
 Qed.
 
 (* ------------------------------------------------------------------ *)
